@@ -1618,6 +1618,7 @@ start_property (GMarkupParseContext *context,
   const gchar *transfer;
   const gchar *setter;
   const gchar *getter;
+  const gchar *deprecated;
   GIrNodeProperty *property;
   GIrNodeInterface *iface;
 
@@ -1645,6 +1646,7 @@ start_property (GMarkupParseContext *context,
   transfer = find_attribute ("transfer-ownership", attribute_names, attribute_values);
   setter = find_attribute ("setter", attribute_names, attribute_values);
   getter = find_attribute ("getter", attribute_names, attribute_values);
+  deprecated = find_attribute ("deprecated", attribute_names, attribute_values);
 
   if (name == NULL)
     {
@@ -1675,6 +1677,11 @@ start_property (GMarkupParseContext *context,
     property->construct_only = TRUE;
   else
     property->construct_only = FALSE;
+
+  if (deprecated)
+    property->deprecated = TRUE;
+  else
+    property->deprecated = FALSE;
 
   property->setter = g_strdup (setter);
   property->getter = g_strdup (getter);
